@@ -124,6 +124,70 @@ pub fn run_one(ctx: &Ctx, rep: &mut Report, seq: &[usize], seed: u64, label: &st
     }
 }
 
+/// Family "overlapping announces": two peers of the first reply refuse the connection, which makes
+/// the manager re-announce twice at once; the first of those announces succeeds, the other one keeps
+/// failing. The session must keep serving while that one fails.
+pub fn run_overlap(ctx: &Ctx, rep: &mut Report, seed: u64, fault_kind: usize) {
+    let mut sr = Rng::new(seed);
+    let torrent = Rc::new(gen_sim_torrent(&mut sr, 4, true));
+    let n = torrent.n();
+    let mut peers = vec![];
+    for k in 0..2 {
+        // listed, but nobody listens there
+        peers.push(PeerSpec { addr: addr(k), id: peer_id(k), entry: Entry::Dialled { from_announce: 0 }, make: Box::new(move |_| None), chunk: 0, pipe: 1 << 20 });
+    }
+    let mut s = SeederCfg::honest(peer_id(2), vec![true; n]);
+    s.unchoke_after_ms = Some(0);
+    let s2 = s.clone();
+    peers.push(PeerSpec { addr: addr(2), id: peer_id(2), entry: Entry::Dialled { from_announce: 2 }, make: Box::new(move |nth| if nth > 2 { None } else { Some(seeder(s2.clone())) }), chunk: 0, pipe: 1 << 20 });
+    let probe_addr = addr(9);
+    let probe_at = 1_000 + sr.range(0, 3_000);
+    let mut first = Msg::handshake(&torrent.info_hash(), &peer_id(9)).encode();
+    first.extend_from_slice(&Msg::Bitfield(bitfield_bytes(&vec![false; n])).encode());
+    let script = vec![(0u64, first)];
+    peers.push(PeerSpec { addr: probe_addr.clone(), id: peer_id(9), entry: Entry::Incoming { at_ms: probe_at }, make: Box::new(move |nth| if nth > 1 { None } else { Some(crate::checks::c20::scripted_structured(script.clone())) }), chunk: 0, pipe: 1 << 20 });
+    let pa = probe_addr.clone();
+    let mut fails = 0u64;
+    let tracker_fn: Box<dyn FnMut(u64, &crate::sim::Log) -> TrackerStep> = Box::new(move |nth, log| {
+        if nth < 2 { return TrackerStep::Good; }
+        let answered = log.0.borrow().events.iter().any(|e| e.addr == pa && matches!(&e.kind, EvKind::Send { msg: Msg::Handshake { .. }, .. }));
+        let now = log.now_ms();
+        if (answered && now > probe_at) || fails >= MAX_ROUNDS_UNANSWERED + 6 { TrackerStep::Good } else { fails += 1; step_of(fault_kind) }
+    });
+    let cfg = SimCfg { torrent: torrent.clone(), peers, tracker: vec![], failpoints: None, max_virtual_ms: 120_000, stop_on_extract: true, linger_ms: 200, disk_on: disk_never, seed, tracker_fn: Some(tracker_fn), driver: None };
+    rep.evaluations += 1;
+    let o = run_sim(cfg, &ctx.scratch, 180);
+    let desc = json!({"family": "overlapping announces: reply #0 lists two unreachable peers; of the two re-announces the first succeeds, the second keeps failing", "fault": KINDS[fault_kind], "probe_connects_at_ms": probe_at, "seed": seed});
+    if o.watchdog { rep.inconclusive(format!("watchdog ({:?})", desc)); return; }
+    rep.distinct(&hash64(&("overlap", fault_kind, probe_at / 500)));
+    let trace = || -> Vec<String> {
+        let v: Vec<String> = o.events.iter().filter(|e| matches!(&e.kind, EvKind::Note { .. } | EvKind::Mgr { .. }) || e.addr == probe_addr).filter(|e| !matches!(&e.kind, EvKind::Mgr { kind, .. } if *kind == "SyncStats" || *kind == "Rotation")).filter(|e| !matches!(e.kind, EvKind::RecvWait { .. })).map(fmt_ev).collect();
+        v.iter().take(26).cloned().collect()
+    };
+    if let Some(p) = o.panics.first() {
+        rep.violation(&format!("C19:panic:{}", panic_site(p)), p.clone(), json!({"scenario": desc, "trace": trace()}));
+        return;
+    }
+    let connected = o.events.iter().find(|e| e.addr == probe_addr && matches!(e.kind, EvKind::PeerSent { .. })).map(|e| e.ms);
+    let answered = o.events.iter().find(|e| e.addr == probe_addr && matches!(&e.kind, EvKind::Send { msg: Msg::Handshake { .. }, .. })).map(|e| e.ms);
+    let failing_rounds = |from: u64, to: u64| o.events.iter().filter(|e| e.ms >= from && e.ms <= to && matches!(&e.kind, EvKind::Note { text } if text.contains("-> fail") || text.contains("-> body"))).count() as u64;
+    match (connected, answered) {
+        (Some(c), Some(a)) if failing_rounds(c, a) < MAX_ROUNDS_UNANSWERED => { rep.count("overlap_probes_answered_while_tracker_failing", 1); rep.count("probes_answered_while_tracker_failing", 1); }
+        (Some(c), a) => {
+            rep.violation("C19:session-blocked-by-overlapping-announce", format!("a peer connected in at t={} ms while one of two overlapping announces kept failing; answered at {:?} after {} failing rounds", c, a, failing_rounds(c, a.unwrap_or(u64::MAX))), json!({"scenario": desc, "trace": trace()}));
+            return;
+        }
+        (None, _) => { rep.inconclusive("probe never connected"); return; }
+    }
+    // once the tracker recovers, the seeder it lists is contacted
+    let hs = o.events.iter().find(|e| e.addr == addr(2) && matches!(&e.kind, EvKind::Send { msg: Msg::Handshake { .. }, .. }));
+    if hs.is_none() {
+        rep.violation("C19:listed-peers-not-contacted", "after the tracker recovered the listed seeder was never contacted".to_string(), json!({"scenario": desc, "trace": trace()}));
+        return;
+    }
+    rep.count("fault_sequences_survived", 1);
+}
+
 pub fn run(ctx: &Ctx, rep: &mut Report) {
     rep.need("fault_sequences_survived", 20);
     rep.need("probes_answered_while_tracker_failing", 20);
@@ -150,6 +214,10 @@ pub fn run(ctx: &Ctx, rep: &mut Report) {
         if i % ctx.nshards != ctx.shard { continue; }
         let s: Vec<usize> = (0..*l).map(|j| (j % 4) as usize).collect();
         run_one(ctx, rep, &s, r.next(), "long");
+    }
+    // (b2) overlapping announces
+    for i in 0..ctx.count(32, 800) {
+        run_overlap(ctx, rep, r.next(), (i % 4) as usize);
     }
     // (c) random sequences of length <= 8
     for _ in 0..ctx.count(160, 4_000) {
